@@ -650,12 +650,13 @@ error:
 	} else if (error == UNSUPPORTED_PROTOCOL_VER) {
 		RTR_DBG("PDU with unsupported Protocol version (%u) received", header.ver);
 		rtr_send_error_pdu_from_network(rtr_socket, pdu, sizeof(header), UNSUPPORTED_PROTOCOL_VER, NULL, 0);
-		return RTR_ERROR;
 	} else if (error == UNEXPECTED_PROTOCOL_VERSION) {
 		RTR_DBG("PDU with unexpected Protocol version (%u) received", header.ver);
 		rtr_send_error_pdu_from_network(rtr_socket, pdu, sizeof(header), UNEXPECTED_PROTOCOL_VERSION, NULL, 0);
-		return RTR_ERROR;
 	}
+
+	// An Error Report ends the session: the rest of this connection must
+	// not be read as if nothing had happened.
 
 	rtr_change_socket_state(rtr_socket, RTR_ERROR_FATAL);
 	return RTR_ERROR;
@@ -1298,6 +1299,7 @@ static int rtr_sync_receive_and_store_pdus(struct rtr_socket *rtr_socket)
 
 			rtr_send_error_pdu_from_host(rtr_socket, pdu, sizeof(struct pdu_header), CORRUPT_DATA, txt,
 						     sizeof(txt));
+			rtr_change_socket_state(rtr_socket, RTR_ERROR_FATAL);
 			retval = RTR_ERROR;
 			goto cleanup;
 		}
@@ -1383,6 +1385,7 @@ int rtr_sync(struct rtr_socket *rtr_socket)
 
 		rtr_send_error_pdu_from_host(rtr_socket, pdu, sizeof(struct pdu_header), CORRUPT_DATA, txt,
 					     sizeof(txt));
+		rtr_change_socket_state(rtr_socket, RTR_ERROR_FATAL);
 		return RTR_ERROR;
 	}
 
